@@ -418,9 +418,21 @@ func main() {
 	addEnc(jcase{Kind: "enc", G: g2, Paints: []blk.Paint{blk.Fill(0)}, Pts: samplePts(g2, 2)})
 	addEnc(jcase{Kind: "enc", G: g2, Paints: []blk.Paint{blk.Fill(top)}, Pts: samplePts(g2, 2)})
 	addEnc(jcase{Kind: "enc", G: g2, Paints: []blk.Paint{blk.Fill(1), blk.Box([6]int{3, 0, 0, 8, 8, 8}, 2)}, Pts: samplePts(g2, 4)})
-	// known finding: an odd number of sub-blocks cannot be encoded once there are two labels
-	addEnc(jcase{Kind: "enc", G: [3]int{3, 3, 3}, Paints: []blk.Paint{blk.Fill(1), blk.Box([6]int{0, 0, 0, 3, 24, 24}, 7)}, Pts: [][3]int{{0, 0, 0}}})
-	addEnc(jcase{Kind: "enc", G: [3]int{3, 3, 3}, Paints: []blk.Paint{blk.Fill(5)}, Pts: [][3]int{{0, 0, 0}, {23, 23, 23}}})
+	// an odd number of sub-blocks (SBIndices 2-byte aligned; refused before C09-2-fix): 24^3 and 24x24x40
+	g3 := [3]int{3, 3, 3}
+	addEnc(jcase{Kind: "enc", G: g3, Paints: []blk.Paint{blk.Fill(1), blk.Box([6]int{0, 0, 0, 3, 24, 24}, 7)}, Pts: samplePts(g3, 4)})
+	addEnc(jcase{Kind: "enc", G: g3, Paints: []blk.Paint{blk.Fill(5)}, Pts: [][3]int{{0, 0, 0}, {23, 23, 23}}})
+	{
+		odd := []blk.Paint{blk.Hash([6]int{0, 0, 0, 24, 24, 24}, 4, uint64(rng.Intn(1<<16)), []uint64{1, 2, 3, ^uint64(0)}), blk.Cyc([6]int{8, 8, 8, 16, 16, 16}, 9, 3, uint64(2+rng.Intn(60)))}
+		addEnc(jcase{Kind: "enc", G: g3, Paints: odd, Pts: samplePts(g3, 6)})
+		addView(jcase{Kind: "rle", G: g3, Paints: odd, Lbls: []uint64{1, 3}, BC: [3]int32{-1, 0, 1}})
+		if o.Thorough() {
+			addDec(jcase{Kind: "dec", G: g3, Paints: odd, Pts: samplePts(g3, 3), Order: "desc"})
+			addView(jcase{Kind: "bin", G: g3, Paints: odd, Lbls: []uint64{2}, Main: 2, BC: [3]int32{0, -1, 0}})
+			g5 := [3]int{3, 3, 5}
+			addEnc(jcase{Kind: "enc", G: g5, Paints: []blk.Paint{blk.Hash([6]int{0, 0, 0, 24, 24, 40}, 2, 5, []uint64{1, 2, 3})}, Pts: samplePts(g5, 6)})
+		}
+	}
 
 	// n distinct labels in one sub-block (bit widths 1..9, non powers of two), near 2^64-1 for some
 	counts := []int{2, 3, 4, 5, 7, 8, 9, 15, 16, 17, 31, 32, 33, 63, 64, 65, 127, 128, 129, 255, 256, 257, 300, 511, 512}
